@@ -216,8 +216,15 @@ class AbsMachine:
                     return False
                 return UNKNOWN
             if isinstance(e.func, ast.Name) and e.func.id == "bool" and len(e.args) == 1:
-                t = truth(self.ev(e.args[0], env, chosen))
+                v0 = self.ev(e.args[0], env, chosen)
+                fs = B.to_fields(v0) if isinstance(v0, (B.BitRec, B.SymBits)) else None
+                if fs is not None and len(fs) == 1 and fs[0][1] == 1 and isinstance(fs[0][2], B.SymBits):
+                    return fs[0][2]  # bool(one symbolic bit) is that bit as 0/1
+                t = truth(v0)
                 return UNKNOWN if t is None else t
+            if isinstance(e.func, ast.Attribute) and e.func.attr == "to_bytes" and e.args:
+                # n.to_bytes(k, 'big'): transparent for the bit-record view (the k octets of n)
+                return self.ev(e.func.value, env, chosen)
             for a in e.args:
                 self.ev(a, env, chosen)
             return UNKNOWN
